@@ -65,11 +65,13 @@ SerialAssembleAction::~SerialAssembleAction()
 
 bool SerialAssembleAction::startThisAction(Action *action)
 {
-    if (action->start()) {
-        curr_action_ = action;
+    //! 先登记为当前子动作再启动：子动作 start() 期间的回调若对本动作 stop()/pause()，才能作用到正在启动的子动作上
+    curr_action_ = action;
+    if (action->start())
         return true;
-    }
 
+    if (curr_action_ == action)
+        curr_action_ = nullptr;
     return false;
 }
 
